@@ -15,6 +15,7 @@ import (
 
 	"github.com/nuts-foundation/nuts-node/crypto/hash"
 	"github.com/nuts-foundation/nuts-node/network/dag"
+	"github.com/nuts-foundation/nuts-node/network/transport/v2/gossip"
 )
 
 // layout of the C07 universe (index ranges)
@@ -328,6 +329,19 @@ func (g *vGen) forge(from, to int) *vMsg {
 	case 0: // TransactionList without conversation
 		return &vMsg{T: "tl", C: &forgedCid, Num: 1, Total: 1, Txs: someValid(1 + r.Intn(4))}
 	case 1: // TransactionList on a live conversation with whatever content
+		if live && r.Intn(3) == 0 {
+			// right transaction, WRONG payload (rolls the write transaction back) / boundary clocks of a range conversation
+			l := someValid(1 + r.Intn(2))
+			l[0].Pl = g.plName(ly.trunk + 1)
+			if kind == "rq" {
+				for _, c := range []int{int(a), int(b) - 1, int(b)} {
+					if c >= 0 && c < ly.L {
+						l = append(l, vNetTx{I: ly.trunk + c, Pl: g.plName(ly.trunk + c)})
+					}
+				}
+			}
+			return &vMsg{T: "tl", C: &cid, Num: 1, Total: 2, Txs: l}
+		}
 		if !live {
 			return &vMsg{T: "tl", C: &forgedCid, Num: 1, Total: 1, Txs: []vNetTx{{I: inv, Pl: g.plName(inv)}}}
 		}
@@ -464,12 +478,18 @@ func (g *vGen) hostilePrefix(steps int, hostile bool) {
 			s.exec(&vOp{Op: "deliver", M: r.Intn(len(s.sent))})
 		case x < 90 && hostile:
 			s.exec(&vOp{Op: "inject", From: c.Peer, To: c.At, Msg: g.forge(c.Peer, c.At)})
-		case x < 93:
+		case x < 92:
 			s.exec(&vOp{Op: "advance", N: c.At, Dt: 1 + r.Intn(3)})
 			if r.Intn(2) == 0 {
 				s.exec(&vOp{Op: "evict", N: c.At})
 			}
-		case x < 97:
+		case x < 95 && hostile:
+			mode := []string{"down", "up", "disconnect", "connect"}[r.Intn(4)]
+			s.exec(&vOp{Op: "conn", N: c.At, Peer: c.Peer, Mode: mode})
+			if r.Intn(2) == 0 {
+				s.exec(&vOp{Op: "tick", N: c.At, Peer: c.Peer})
+			}
+		case x < 98:
 			// a node creates a transaction of its own
 			k := c.At
 			if k < 3 && g.freshNext[k] < g.ly.F {
@@ -487,7 +507,7 @@ func (g *vGen) hostilePrefix(steps int, hostile bool) {
 func (g *vGen) runScenario(idx int, dir string) vVerdict {
 	s, r := g.s, g.rnd
 	nNodes := 2
-	if s.t != nil && os.Getenv("VERIF_TIER") == "thorough" && idx%5 == 4 {
+	if (os.Getenv("VERIF_TIER") == "thorough" && idx%5 == 4) || idx%10 == 9 {
 		nNodes = 3
 	}
 	k := idx % 7
@@ -516,7 +536,14 @@ func (g *vGen) runScenario(idx int, dir string) vVerdict {
 	}
 	feats = append(feats, fmt.Sprintf("prefix-steps=%d", steps), fmt.Sprintf("maxmsg=%d", sc.MaxMsg), fmt.Sprintf("nodes=%d", nNodes))
 	g.hostilePrefix(steps, hostile)
-	// the fair suffix
+	// the fair suffix: every connection is (re-)established first
+	for _, cc := range s.sc.Conns {
+		c := s.nodes[cc.At].conns[cc.Peer]
+		_, _, _, _, hasQ := gossip.VerifQueue(s.nodes[cc.At].p.gManager, c.peer)
+		if !c.connected || !hasQ {
+			s.exec(&vOp{Op: "conn", N: cc.At, Peer: cc.Peer, Mode: "connect"})
+		}
+	}
 	expireEvery := 1 + r.Intn(3)
 	_, diffNow := s.startSets()
 	maxRounds := 12 + 3*expireEvery + diffNow/40 + 4*nNodes
